@@ -97,6 +97,7 @@ type gcfg struct {
 	Packages   bool   // in-package / export / use-package / pkg:name
 	Files      bool   // file break item
 	Macros     bool   // defmacro items
+	NestedSet  bool   // top-level (set 'n v) forms nested in a non-function top-level form (if / progn / let / cond / dotimes / handler-bind)
 	LangName   bool   // Names[0] is a name the language itself binds (builtin, special operator, stock macro, stdlib export)
 	Wrap       string // function that tags function bodies (default list)
 	Prelude    string // text put in front of the first file (costs no weight)
@@ -193,6 +194,10 @@ var litTerm = &term{k: kLit}
 
 // macro templates (global defmacro and macrolet): p is the macro parameter, g a free name
 const nTemplates = 4
+
+// wrappers of a nested top-level set: 1 if/both branches (then runs), 2 if/both (else runs), 3 if/one branch,
+// 4 progn, 5 let, 6 cond, 7 dotimes, 8 handler-bind
+const nSetWraps = 9
 
 func templateText(tmpl int8, p string, free string) string {
 	switch tmpl {
@@ -609,6 +614,22 @@ func (g *gen) skeletons(f func(items []item)) {
 				ns.defined[key] = true
 				push(item{k: itSet, n: n, hole: h}, 1+h, ns)
 			})
+			if g.cfg.NestedSet {
+				// the same definition nested in a top-level non-function form: the
+				// wrapper costs 1, the second set of an if with two branches 1 more
+				for wr := int8(1); wr < nSetWraps; wr++ {
+					extra := 1
+					if wr <= 2 {
+						extra = 2
+					}
+					holeW(left-2-extra, 1, func(h int) {
+						ns := s
+						ns.defined = clone(s.defined)
+						ns.defined[key] = true
+						push(item{k: itSet, n: n, style: wr, hole: h}, 1+extra+h, ns)
+					})
+				}
+			}
 		}
 		// defmacro: weight 2 (form, template); at most 1 macro per session
 		if g.cfg.Macros && s.nmacros < 1 && left >= 4 {
@@ -1000,7 +1021,7 @@ func termHasKey(t *term) bool {
 }
 
 var allTags = []string{"&key", "&optional", "&rest", "callkey", "defmacro", "defmacro-free", "defmacro-free-eq-param", "defmacro-qfree", "dotimes", "export", "export-in-other-file",
-	"files", "funarg", "gset", "let-dup", "let-value-closure", "macrolet", "macrolet-free", "pkg", "prefix", "qref", "qref-in-brackets", "redefine", "use", "use-with-local-export"}
+	"files", "funarg", "gset", "let-dup", "let-value-closure", "macrolet", "macrolet-free", "nested-set", "pkg", "prefix", "qref", "qref-in-brackets", "redefine", "use", "use-with-local-export"}
 
 func termTags(t *term, tags map[string]bool, inBrackets bool) {
 	if t == nil {
@@ -1143,6 +1164,7 @@ func (g *gen) render(items []item) program {
 	exported := map[[2]int8]bool{}
 	defined := map[[2]int8]bool{}
 	setDefined := map[[2]int8]bool{}
+	nestedSet := false
 	for _, it := range items {
 		switch it.k {
 		case itBreak:
@@ -1177,9 +1199,61 @@ func (g *gen) render(items []item) program {
 			}
 			r.b.WriteString("(defmacro m" + strconv.Itoa(int(it.n)) + " (" + r.name(it.p) + ") (quasiquote " + templateText(it.tmpl, r.name(it.p), free) + "))")
 		case itSet:
-			r.b.WriteString("(set '" + r.name(it.n) + " ")
-			r.term(it.fill)
-			r.b.WriteString(")")
+			v := r.name(int8(len(r.names) - 1)) // binder of the let / dotimes wrappers
+			set := func(hole bool) {
+				r.b.WriteString("(set '" + r.name(it.n) + " ")
+				if hole {
+					r.term(it.fill)
+				} else {
+					r.lit++
+					r.b.WriteString(strconv.Itoa(r.lit))
+				}
+				r.b.WriteString(")")
+			}
+			switch it.style {
+			case 0:
+				set(true)
+			case 1:
+				r.b.WriteString("(if true ")
+				set(true)
+				r.b.WriteString(" ")
+				set(false)
+				r.b.WriteString(")")
+			case 2:
+				r.b.WriteString("(if false ")
+				set(false)
+				r.b.WriteString(" ")
+				set(true)
+				r.b.WriteString(")")
+			case 3:
+				r.b.WriteString("(if true ")
+				set(true)
+				r.b.WriteString(" ())")
+			case 4:
+				r.b.WriteString("(progn ")
+				set(true)
+				r.b.WriteString(")")
+			case 5:
+				r.lit++
+				r.b.WriteString("(let ([" + v + " " + strconv.Itoa(r.lit) + "]) ")
+				set(true)
+				r.b.WriteString(")")
+			case 6:
+				r.b.WriteString("(cond (true ")
+				set(true)
+				r.b.WriteString("))")
+			case 7:
+				r.b.WriteString("(dotimes (" + v + " 1) ")
+				set(true)
+				r.b.WriteString(")")
+			case 8:
+				r.b.WriteString("(handler-bind ([condition (lambda (c &rest r) 0)]) ")
+				set(true)
+				r.b.WriteString(")")
+			}
+			if it.style > 0 {
+				nestedSet = true
+			}
 			defined[[2]int8{it.pkg, it.n}] = true
 			setDefined[[2]int8{it.pkg, it.n}] = true
 		case itExport:
@@ -1206,6 +1280,9 @@ func (g *gen) render(items []item) program {
 	p.Files = files
 	p.NItems = len(items)
 	tags := map[string]bool{}
+	if nestedSet {
+		tags["nested-set"] = true
+	}
 	seenDef := map[[2]int8]bool{}
 	for _, it := range items {
 		switch it.k {
@@ -1330,7 +1407,11 @@ func (g *gen) enumerate(visit func(p program)) (skeletons int64) {
 			case itDefun:
 				l = g.list(ctx, ntExpr, it.hole, scope{local: 1 << uint(it.p)})
 			case itSet:
-				l = g.list(ctx, ntArg, it.hole, scope{})
+				sc := scope{}
+				if it.style == 5 || it.style == 7 {
+					sc = sc.bind(len(g.cfg.Names) - 1) // the value sees the wrapper's binder
+				}
+				l = g.list(ctx, ntArg, it.hole, sc)
 			case itStmt:
 				l = g.list(ctx, ntStmt, it.hole, scope{})
 			case itFinal:
